@@ -68,6 +68,10 @@ def qlit(x):
     return f"(q {n} {x.denominator})"
 
 
+def vfmt(v):
+    return "[" + ", ".join(str(t) for t in v) + "]"
+
+
 def vlit(v):
     return lit.lst([qlit(t) for t in v])
 
@@ -397,15 +401,15 @@ def run_case(inp, with_obs=True):
             evs.append((xF, s_o, xb_o, vq_o, vi_o))
             # maps
             if s_o != sF:
-                rec.fail("oracle/maps", f"x_to_s({xl}) = {s_o}, expected {sF}", where)
+                rec.fail("oracle/maps", f"x_to_s({xl}) = {vfmt(s_o)}, expected {vfmt(sF)}", where)
             if xb_o != xF:
-                rec.fail("oracle/maps", f"s_to_x(x_to_s({xl})) = {xb_o}, expected {xF}", where)
+                rec.fail("oracle/maps", f"s_to_x(x_to_s({xl})) = {vfmt(xb_o)}, expected {vfmt(xF)}", where)
             # evaluators against the exact reference
             if vq_o != ref_qubo(Q, c, xF):
                 rec.fail("oracle/evaluate_QUBO", f"evaluate_QUBO = {vq_o}, exact x'Qx+c = {ref_qubo(Q, c, xF)} at x={xl}",
                          {**where, "Q": Q, "c": c})
             if vi_o != ref_ising(J0, h0, c0, sF):
-                rec.fail("oracle/evaluate_Ising", f"evaluate_Ising = {vi_o}, exact s'Js+h's+c = {ref_ising(J0, h0, c0, sF)} at s={sF}",
+                rec.fail("oracle/evaluate_Ising", f"evaluate_Ising = {vi_o}, exact s'Js+h's+c = {ref_ising(J0, h0, c0, sF)} at s={vfmt(sF)}",
                          {**where, "J": J0, "h": h0, "c": c0})
             # the property: energies agree
             if o1[0] == "ok":
@@ -427,7 +431,7 @@ def run_case(inp, with_obs=True):
                 want = ref_ising(J0, h0, c0, sF)
                 if e2 != want:
                     rec.fail("oracle/i2q-energy",
-                             f"evaluate_QUBO(Ising_to_QUBO(J,h,c), x) = {e2} but s'Js + h's + c = {want} at x={xl}, s={sF}",
+                             f"evaluate_QUBO(Ising_to_QUBO(J,h,c), x) = {e2} but s'Js + h's + c = {want} at x={xl}, s={vfmt(sF)}",
                              {**where, "J": J0, "h": h0, "c": c0, "observed": e2, "expected": want,
                               "python": "props.c01.replay_energy(replay)"})
             if x.tobytes() != xb0:
@@ -454,7 +458,7 @@ def run_case(inp, with_obs=True):
         if r[0] == "ok" and r_[0] == "ok":
             maps.append((v, fr_vec(r[1]), fr_vec(r_[1])))
         else:
-            rec.fail("oracle/maps-raised", f"x_to_s / s_to_x raised on {v}", {"v": v})
+            rec.fail("oracle/maps-raised", f"x_to_s / s_to_x raised on {vfmt(v)}", {"v": v})
     obs["maps"] = maps
     for f in rec.failures:
         f[2].setdefault("input", jsonable({k: inp.get(k) for k in ("kind", "variant", "integer", "vseed", "Q", "c", "J0", "h0", "c0",
